@@ -78,7 +78,7 @@ Render(id) ==                                        \* id normalised
   \o <<Up3(id.country), Sep("_"), id.map, Sep("-"), Num(id.map_id)>>
   \o (IF id.config # <<>> THEN <<Sep("_"), Num(id.config[1])>> ELSE <<>>)
   \o (IF id.beh # "None" THEN <<Sep("_"), Word(id.beh)>> \o PredToks(id.pred, 1) ELSE <<>>)
-PrintId(id) == Render(Normalize(id))
+PrintId(id) == Render(Normalize(id))                \* "Print(id)" of the design; the name Print belongs to the TLC module
 
 (* the id grammar as a nondeterministic automaton over token classes *)
 Match(cls, t) ==
